@@ -813,4 +813,50 @@ theorem gen_pages (expf : Rat → Rat) (data off ncols ps itemsize nrows : Nat) 
   · simp only [hr, Bool.false_eq_true, if_false]
     exact codeLoop_false expf _ _ _ nrows 0
 
+/-! ### pointwise sums -/
+
+theorem wrap_add_wrap (w : W) (x y : Nat) : wrap w (wrap w x + y) = wrap w (x + y) := by
+  cases w <;> simp [wrap, W.bits, Nat.add_mod]
+
+theorem addLs_eq_zipWith (a b : List Nat) (h : a.length = b.length) :
+    addLs a b = List.zipWith (· + ·) a b := by
+  induction a generalizing b with
+  | nil => cases b <;> simp_all [addLs]
+  | cons x a ih =>
+    cases b with
+    | nil => simp at h
+    | cons y b =>
+      simp only [addLs, List.zipWith_cons_cons, List.cons.injEq, true_and]
+      exact ih b (by simpa using h)
+
+theorem zipWith_wrap_add (w : W) (a b : List Nat) (h : a.length = b.length) :
+    List.zipWith (fun x y => wrap w (x + y)) (a.map (wrap w)) b = (addLs a b).map (wrap w) := by
+  rw [addLs_eq_zipWith a b h]
+  induction a generalizing b with
+  | nil => cases b <;> simp
+  | cons x a ih =>
+    cases b with
+    | nil => simp at h
+    | cons y b =>
+      simp only [List.map_cons, List.zipWith_cons_cons, List.cons.injEq]
+      exact ⟨wrap_add_wrap w x y, ih b (by simpa using h)⟩
+
+theorem addLs_le (a b : List Nat) (h : a.length = b.length) (n m : Nat) (ha : ∀ k ∈ a, k ≤ n) (hb : ∀ k ∈ b, k ≤ m) :
+    ∀ k ∈ addLs a b, k ≤ n + m := by
+  induction a generalizing b with
+  | nil => cases b <;> simp_all [addLs]
+  | cons x a ih =>
+    cases b with
+    | nil => simp at h
+    | cons y b =>
+      intro k hk
+      simp only [addLs, List.mem_cons] at hk
+      rcases hk with rfl | hk
+      · have := ha x (List.mem_cons_self); have := hb y (List.mem_cons_self); omega
+      · exact ih b (by simpa using h) (fun k hk => ha k (List.mem_cons_of_mem _ hk))
+          (fun k hk => hb k (List.mem_cons_of_mem _ hk)) k hk
+
+theorem addLs_length_eq (a b : List Nat) (h : a.length = b.length) : (addLs a b).length = a.length := by
+  rw [addLs_eq_zipWith a b h]; simp [h]
+
 end BB
